@@ -20,3 +20,23 @@ Theorem C08_apply_x_slice :
     apply_x n 1 it (updateSM n it offs) (fun i => D (b * n * n + i)) (didx n 0 x y).
 Proof. exact apply_x_slice. Qed.
 Print Assumptions C08_apply_x_slice.
+
+(** ** Fokker-Planck step: FokkerPlanckMap::apply loops over bunches with one shared stencil table;
+    the flat loop is a map of the single-bunch operator over the bunch slices (any table [H], any
+    field, any number of bunches - the bunch count only bounds the index range). *)
+From Inovesa Require Import Base.Sums Gen.Gen_FPStencil Model.FokkerPlanck Proofs.FPGridP.
+
+Theorem C08_fp_apply_slice :
+  forall (K : Fld) (n xs ip : Z) (H : Z -> Z * K) (D : Z -> K) (b i : Z),
+    0 < n -> 0 < xs -> 0 <= i < xs * n ->
+    fp_apply n xs ip H D (b * xs * n + i) = fp_apply n xs ip H (fun i' => D (b * xs * n + i')) i.
+Proof. exact fp_apply_slice_gen. Qed.
+Print Assumptions C08_fp_apply_slice.
+
+(** non-vacuity and a concrete instance: bunch 1 of a two-bunch 4x4 array under the model's own table *)
+Example C08_fp_slice_example :
+  let ax := map (fun j => (Qcz j - Q2Qc (3 # 2))%Qc) (zrange 4) in
+  let d := map Qcz (zrange 32) in
+  skipn 16 (fp_apply_list 3 3 4 4 2 (Q2Qc (3 # 2)) (Q2Qc (1 # 8)) 1%Qc ax d)
+  = fp_apply_list 3 3 4 4 1 (Q2Qc (3 # 2)) (Q2Qc (1 # 8)) 1%Qc ax (skipn 16 d).
+Proof. vm_compute. reflexivity. Qed.
